@@ -252,26 +252,68 @@ def conditions_of(tree, out=None):
     return out
 
 
-def compare_trees(code, spec, leaf_eq, alias=None, assume=None, int_subjects=None):
-    """Compare two decision trees.  Returns list of (description, code_leaf, spec_leaf) mismatches.
+class _Need(Exception):
+    def __init__(self, key):
+        self.key = key
 
-    ``assume``: optional condition term; valuations that falsify it are skipped (declared input domain)."""
+
+class _Partial(dict):
+    """Partial valuation: looking up an unassigned variable asks the explorer to branch on it."""
+
+    def __missing__(self, key):
+        raise _Need(key)
+
+
+def compare_trees(code, spec, leaf_eq, alias=None, assume=None, int_subjects=None, cap=200000):
+    """Compare two decision trees.  Returns (mismatches [(description, code_leaf, spec_leaf)], number of explored cases).
+
+    The truth table is explored lazily: conditions are evaluated under a partial assignment of regions and the exploration
+    branches on a variable only when a condition on the current path needs it, so the cost follows the number of distinct
+    paths, not the product of all regions.  ``assume``: optional condition; cases that falsify it are skipped."""
     space = CondSpace(alias, int_subjects)
     for c in conditions_of(code) + conditions_of(spec):
         space.collect(c)
     if assume is not None:
         space.collect(assume)
-    mism, rows = [], 0
-    seen = set()
-    for val in space.valuations():
-        if assume is not None and not space.truth(assume, val):
-            continue
-        rows += 1
-        a, b = select(code, space, val), select(spec, space, val)
+    regions = dict(space.variables())
+    mism, seen = [], set()
+    rows = [0]
+
+    def explore(val):
+        rows[0] += 1
+        if rows[0] > cap:
+            raise AnalysisBroken(f"decision table too large (more than {cap} cases)")
+        try:
+            if assume is not None and not space.truth(assume, val):
+                return
+            a, b = select(code, space, val), select(spec, space, val)
+        except _Need as n:
+            rs = regions.get(n.key)
+            if rs is None:
+                rs = [True, False]
+            for r in rs:
+                v2 = _Partial(val)
+                v2[n.key] = r
+                explore(v2)
+            return
+        # path-sensitive refinement of the leaves: on a path where x == y (or x == constant) holds, x may be replaced
+        m = {}
+        for key, reg in val.items():
+            if key[0] == "pair" and reg == "eq":
+                m[key[1][0]] = key[1][1]
+            elif key[0] == "subj" and reg[0] == "n":
+                consts = {c[2] for c in space.subj_consts.get(key[1], ()) if c[0] == "c" and c[1] in ("int", "float")}
+                if any(float(reg[1]) == float(c) for c in consts if c not in (float("inf"), float("-inf"))):
+                    v = reg[1]
+                    m[key[1]] = ("const", "int", int(v)) if float(v) == int(float(v)) else ("const", "float", float(v))
+        if m:
+            from .terms import subst
+            a, b = subst(strip_all(a), m), subst(strip_all(b), m)
         k = (a, b)
         if k in seen:
-            continue
+            return
         seen.add(k)
         if not leaf_eq(a, b):
-            mism.append((space.describe(val), a, b))
-    return mism, rows
+            mism.append((space.describe(dict(val)), a, b))
+    explore(_Partial())
+    return mism, rows[0]
